@@ -469,6 +469,8 @@ def weave_fn(text, directives, canary=False):
         elif d.kind == "vis":
             # visibility only (the item is wrapped in a module of its own by the template)
             add(toks[sh.fn_k].start, d.arg.strip() + " ", d, order=5)
+        elif d.kind == "attr" and canary and "verifier::rlimit" in d.arg:
+            pass   # canary runs use the small global rlimit: an unprovable `assert(false)` must fail fast
         elif d.kind == "attr":
             add(toks[sh.fn_k].start if not _has_vis(toks, sh.fn_k) else toks[_vis_start(toks, sh.fn_k)].start, d.arg.strip() + "\n", d, order=-5)
         else:
